@@ -276,7 +276,7 @@ def main():
     Kn = 3 if args.tier == "quick" else 4
     M = 2 if args.tier == "quick" else 3
     timeout_s = 120 if args.tier == "quick" else 900
-    rep.bounds = {"content_len": "0..%d scalar values in Cap(P)" % Kn, "argument_len": "0..%d" % M, "offset_count": "any 64-bit value",
+    rep.bounds = {"content_len": "0..%d scalar values in Cap(P) (0..%d for delete_data)" % (Kn, Kn + 1), "argument_len": "0..%d" % M, "offset_count": "any 64-bit value",
                   "names": "0..%d characters" % (4 if args.tier == "quick" else 6),
                   "outside": "attribute-value piece editing; histories longer than one edit from an arbitrary valid state (one step from any state in Cap(P) covers them for this invariant); PI data"}
     rep.assumptions += ["a node's data is in the capture language of its production (the invariant every successful step must re-establish)",
@@ -287,7 +287,8 @@ def main():
     jobs = []
     for kind in c16.KINDS:
         for method in EDITS:
-            for n in range(0, Kn + 1):
+            # deletions have no argument and are cheap: one more character, so that ']]' x '>' and '-' x '-' fit
+            for n in range(0, Kn + (2 if method == "delete_data" else 1)):
                 ms = range(0, M + 1) if method != "delete_data" else [0]
                 for m in ms:
                     jobs.append((kind, method, n, m, "debug", timeout_s))
